@@ -158,7 +158,7 @@ func c11R1(c *Ctx) {
 					wg := x.Common().Args[0]
 					key := fname + "/Wait[" + wgName(wg) + "]"
 					ok, why := c.waitCoveredByDeferredDone(wg)
-					c.check(ok, key, c.ipos(x), "the awaited goroutine defers Done at its start", "WaitGroup.Wait can block forever: "+why)
+					c.check(ok, key, c.ipos(x), "the awaited goroutine defers Done at its start", "WaitGroup pairing is broken (Wait blocks forever, or returns early and Done panics): "+why)
 				case "(*sync.Mutex).Lock", "(*sync.RWMutex).Lock", "(*sync.RWMutex).RLock", "(*sync.Cond).Wait":
 					nOps++
 					c.bad(fname+"/"+id, c.ipos(x), "lock/condition wait inside the stage family is not covered by cancellation")
@@ -356,6 +356,37 @@ func (c *Ctx) waitCoveredByDeferredDone(wg ssa.Value) (bool, string) {
 			nDone++
 			if _, isDefer := in.(*ssa.Defer); !isDefer || in.Block() != f.Blocks[0] {
 				bad = "Done at " + c.ipos(in) + " is not a defer at the start of the awaited goroutine (a stage that exits early never signals)"
+			}
+			// the counter is raised before the goroutine starts (otherwise Wait returns at once and Done panics on a negative counter)
+			parent := f.Parent()
+			if parent == nil {
+				bad = "Done at " + c.ipos(in) + " is not in a goroutine literal; cannot pair it with an Add"
+				return
+			}
+			paired := false
+			eachInstr(parent, func(g ssa.Instruction) {
+				gi, ok := g.(*ssa.Go)
+				if !ok {
+					return
+				}
+				if mc, ok := gi.Call.Value.(*ssa.MakeClosure); !ok || mc.Fn != ssa.Value(f) {
+					return
+				}
+				for _, a := range callsIn(parent, idIs("(*sync.WaitGroup).Add")) {
+					aw := a.Common().Args[0]
+					sameWG := false
+					if _, isField := fieldAddrName(wg); isField {
+						sameWG = wgName(aw) == name
+					} else {
+						sameWG = c.sharesSite(wg, aw) || wgName(aw) == name
+					}
+					if k, isK := constInt(a.Common().Args[1]); sameWG && isK && k >= 1 && domI(a.(ssa.Instruction), gi) {
+						paired = true
+					}
+				}
+			})
+			if !paired {
+				bad = "no WaitGroup.Add(n>=1) on " + name + " dominates the go statement of the goroutine that calls Done at " + c.ipos(in)
 			}
 		})
 	}
